@@ -31,13 +31,19 @@ type c01HealthCase struct {
 
 var c01Acc = [][]string{{"passing"}, {"passing", "warning"}, {"passing", "warning", "critical"}, {"warning"},
 	{"critical"}, {"passing", "critical"}, {"warning", "critical"}}
-var c01Tagged = []map[string]bool{{"s1": true, "s2": true}, {"s1": true}}
+// which instances (node|service id) carry the routing tag; order as in Health_MC!Tagged
+var c01Tagged = []map[string]bool{
+	{"n1|s1": true, "n1|s2": true, "n2|s1": true, "n2|s2": true},
+	{"n1|s1": true, "n2|s1": true},
+	{"n1|s2": true, "n2|s1": true, "n2|s2": true},
+	{"n1|s1": true, "n1|s2": true, "n2|s2": true},
+}
 var c01Inst = [][2]string{{"n1", "s1"}, {"n1", "s2"}, {"n2", "s1"}, {"n2", "s2"}}
 
 func c01Concrete(c c01Check, tagged map[string]bool) *api.HealthCheck {
 	h := &api.HealthCheck{Node: c.Node, Status: c.St, Output: "out"}
 	tags := []string{"plain", "v1"}
-	if tagged[c.Sid] {
+	if tagged[c.Node+"|"+c.Sid] {
 		tags = []string{"plain", "urlprefix-/" + c.Sid}
 	}
 	switch c.Kind {
@@ -76,17 +82,17 @@ func TestVerifC01Health(t *testing.T) {
 		if err := json.Unmarshal(raw, &c); err != nil {
 			return err
 		}
-		if len(c.Masks) != 28 {
-			return fmt.Errorf("case without 28 masks")
+		if len(c.Masks) != 56 {
+			return fmt.Errorf("case without 56 masks")
 		}
 		cases++
 		routed := false
-		for cfg := 1; cfg <= 28; cfg++ {
+		for cfg := 1; cfg <= 56; cfg++ {
 			if c.Config != 0 && cfg != c.Config {
 				continue
 			}
-			a, r := (cfg-1)/4, (cfg-1)%4
-			strict, tagged := r/2 == 1, c01Tagged[r%2]
+			a, r := (cfg-1)/8, (cfg-1)%8
+			strict, tagged := r/4 == 1, c01Tagged[r%4]
 			want := c.Masks[cfg-1]
 			if want != 0 {
 				routed = true
@@ -121,7 +127,7 @@ func TestVerifC01Health(t *testing.T) {
 				if got != want {
 					cc := c
 					cc.Config, cc.Perm = cfg, perm
-					verifx.Fail(cc, map[string]any{"sub": "health", "diff": "instances", "strict": strict, "all_tagged": r%2 == 0},
+					verifx.Fail(cc, map[string]any{"sub": "health", "diff": "instances", "strict": strict, "tagged_variant": r % 4},
 						"checks %+v (order %v), accepted %v, strict=%v, tagged=%v: routed instance mask %04b, the rule prescribes %04b (bit k = %v)",
 						c.Checks, perm, c01Acc[a], strict, tagged, got, want, c01Inst)
 				}
